@@ -11,9 +11,10 @@ func pcall(t *rt.Thread, c *rt.GoCont) (rt.Cont, error) {
 	}
 	next := c.Next()
 	res := rt.NewTerminationWith(c, 0, true)
-	_, err = t.CallContext(rt.RuntimeContextDef{}, func() error {
+	ctx, err := t.CallContext(rt.RuntimeContextDef{}, func() error {
 		return rt.Call(t, c.Arg(0), c.Etc(), res)
 	})
+	propagateTermination(t, ctx, err)
 	if err != nil {
 		t.Push1(next, rt.BoolValue(false))
 		t.Push1(next, rt.ErrorValue(err))
@@ -39,11 +40,12 @@ func xpcall(t *rt.Thread, c *rt.GoCont) (rt.Cont, error) {
 	next := c.Next()
 	res := rt.NewTerminationWith(c, 0, true)
 
-	_, err = t.CallContext(rt.RuntimeContextDef{
+	ctx, err := t.CallContext(rt.RuntimeContextDef{
 		MessageHandler: msgHandler,
 	}, func() error {
 		return rt.Call(t, c.Arg(0), c.Etc(), res)
 	})
+	propagateTermination(t, ctx, err)
 	if err != nil {
 		t.Push1(next, rt.BoolValue(false))
 		t.Push1(next, rt.ErrorValue(err))
@@ -52,4 +54,15 @@ func xpcall(t *rt.Thread, c *rt.GoCont) (rt.Cont, error) {
 		t.Push(next, res.Etc()...)
 	}
 	return next, nil
+}
+
+// A protected call runs in an implicit context which has no limits of its own:
+// if that context was killed, it is because a limit of the enclosing context
+// was reached (or because it was asked to stop).  That must not be caught by
+// the protected call, so the enclosing context is terminated in turn (unless it
+// is the root context, which cannot be terminated).
+func propagateTermination(t *rt.Thread, ctx rt.RuntimeContext, err error) {
+	if ctx.Status() == rt.StatusKilled && t.RuntimeContext().Parent() != nil {
+		t.TerminateContext("%s", err)
+	}
 }
